@@ -106,6 +106,42 @@ SNext ==
      /\ UNCHANGED <<content, startc>>
 SSpecGen == TInit /\ [][SNext]_xvars
 
+(* Structured exhaustive SIBLING family (generator): two direct inserts     *)
+(* (any two paths, either order), child 1 does one operation and is merged, *)
+(* child 2 -- opened afterwards, with its own node cache -- does one or two *)
+(* operations and is discarded or merged.  With a path set that has a long  *)
+(* common prefix this enumerates every way a later sibling can restructure  *)
+(* (split, lift, merge of extensions) a node the earlier sibling created in *)
+(* the same block.                                                          *)
+AnyV == CHOOSE v \in Values : TRUE
+ChildOp(c) ==
+  \E p \in Paths :
+     \/ \E v \in Values : /\ tcs' = [tcs EXCEPT ![c] = InsertResp(tcs[c], p, v).c] /\ hist' = Append(hist, Rec("ins", c, p, v))
+     \/ /\ tcs' = [tcs EXCEPT ![c] = DeleteResp(tcs[c], p).c] /\ hist' = Append(hist, Rec("del", c, p, ""))
+SNext3 ==
+  \/ /\ Len(hist) < 2
+     /\ \E p \in Paths \ DOMAIN tcs[0] :
+           /\ tcs' = [tcs EXCEPT ![0] = InsertResp(tcs[0], p, AnyV).c] /\ hist' = Append(hist, Rec("ins", 0, p, AnyV))
+     /\ UNCHANGED <<content, startc, status>>
+  \/ /\ Len(hist) = 2
+     /\ status' = [status EXCEPT ![1] = "open"] /\ tcs' = [tcs EXCEPT ![1] = tcs[0]] /\ startc' = [startc EXCEPT ![1] = tcs[0]]
+     /\ hist' = Append(hist, Rec("open", 1, <<>>, "")) /\ UNCHANGED content
+  \/ /\ Len(hist) = 3 /\ ChildOp(1) /\ UNCHANGED <<content, startc, status>>
+  \/ /\ Len(hist) = 4
+     /\ status' = [status EXCEPT ![1] = "merged"] /\ tcs' = [tcs EXCEPT ![0] = tcs[1]]
+     /\ hist' = Append(hist, Rec("merge", 1, <<>>, "")) /\ UNCHANGED <<content, startc>>
+  \/ /\ Len(hist) = 5
+     /\ status' = [status EXCEPT ![2] = "open"] /\ tcs' = [tcs EXCEPT ![2] = tcs[0]] /\ startc' = [startc EXCEPT ![2] = tcs[0]]
+     /\ hist' = Append(hist, Rec("open", 2, <<>>, "")) /\ UNCHANGED content
+  \/ /\ Len(hist) \in 6..7 /\ Open(2) /\ ChildOp(2) /\ UNCHANGED <<content, startc, status>>
+  \/ /\ Len(hist) \in 7..8 /\ Open(2)
+     /\ \/ /\ status' = [status EXCEPT ![2] = "discarded"] /\ tcs' = tcs
+           /\ hist' = Append(hist, Rec("discard", 2, <<>>, ""))
+        \/ /\ status' = [status EXCEPT ![2] = "merged"] /\ tcs' = [tcs EXCEPT ![0] = tcs[2]]
+           /\ hist' = Append(hist, Rec("merge", 2, <<>>, ""))
+     /\ Emit(hist') /\ UNCHANGED <<content, startc>>
+SSpecSib == TInit /\ [][SNext3]_xvars
+
 ---------------------------------------------------------------------------
 \* isolation: an action on one trie changes at most that trie and (merge) the parent
 Isolation ==
